@@ -107,7 +107,8 @@ int lha_arch_chmod(char *f, int p) { (void) f; (void) p; return 1; }
 int lha_arch_utime(char *f, unsigned int t) { (void) f; (void) t; return 1; }
 LHAFileType lha_arch_exists(char *f) { (void) f; return LHA_FILE_NONE; }
 int lha_arch_symlink(char *p, char *t) { (void) p; (void) t; return fs_next_ok; }
-int lha_arch_is_symlink(char *p) { (void) p; return 0; }   // the stub file system has no links in directory positions
+static int fs_component_symlink = 0;     // token x2: the file system answers "this directory component is a symbolic link"
+int lha_arch_is_symlink(char *p) { (void) p; return fs_component_symlink; }
 // the output file is a cookie stream: the harness sees whether the library closed it (a handle the library opened must be closed
 // by the library on every path) and collects what was written
 static int fs_open_handles;
@@ -258,6 +259,7 @@ static void rctx_step(RCtx *c, const char *tok)
 	} else if (tok[0] == 'x') {
 		int r;
 		fs_next_ok = tok[1] != '0';
+		fs_component_symlink = tok[1] == '2';
 		fs_file = NULL; fs_buf = NULL; fs_len = 0;
 		trk_on = 1; r = lha_reader_extract(reader, NULL, NULL, NULL); trk_on = 0;
 		if (fs_open_handles != 0) {
